@@ -625,6 +625,21 @@ def _value_leaves(u, e, fn, member, depth):
         if rd.get("kind") == "ParmVarDecl":
             return {"parameter " + str(rd.get("name"))}
         vid = rd.get("id")
+        if (vid, member) in _VISITING:
+            return set()            # an accumulator that is computed from itself (`v = (v << 8) | p[i]`) adds no origin of its own
+        _VISITING.add((vid, member))
+        try:
+            return _value_leaves_of_var(u, e, fn, member, depth, rd, vid)
+        finally:
+            _VISITING.discard((vid, member))
+    return {"?" + A.src(e)[:40]}
+
+
+_VISITING = set()
+
+
+def _value_leaves_of_var(u, e, fn, member, depth, rd, vid):
+    if True:
         d = u.by_id.get(vid)
         out = set()
         if d is not None and A.kids(d) and d.get("kind") == "VarDecl":
